@@ -251,5 +251,34 @@ Definition lstep (p : list ltable) (o : op) : lres :=
                   | None => LErr end
       | None => LSkip
       end
+  | OSetCell ti name (ASel t2i) r =>
+      (* col[dm] = value: positions by id (dict / argsort+searchsorted), then the index-list write *)
+      match nth_error p ti, nth_error p t2i with
+      | Some t, Some k =>
+          match lookup name (l_names t) with
+          | None => LErr
+          | Some ci =>
+              match nth_error (l_cols t) ci with
+              | None => LSkip
+              | Some c =>
+                  if negb (Nat.eqb (l_fam k) (l_fam t)) then LErr
+                  else if negb (forallb (fun x => mem_N x (ia (l_rowid t))) (ia (l_rowid k))) then LSkip
+                  else match sel_positions c k with
+                       | None => LErr
+                       | Some ps =>
+                           match rhs_cells (lc_kind c) (List.length ps) r with
+                           | Raise _ => LErr
+                           | Ok xs =>
+                               LUpd ti {| l_fam := l_fam t; l_rowid := l_rowid t; l_names := l_names t;
+                                          l_cols := set_nth ci {| lc_kind := lc_kind c; lc_rowid := lc_rowid c;
+                                                                  lc_cells := write_at ps xs (lc_cells c);
+                                                                  lc_owner := lc_owner c; lc_tc := lc_tc c |} (l_cols t);
+                                          l_sorted := l_sorted t; l_dflt := l_dflt t |}
+                           end
+                       end
+              end
+          end
+      | _, _ => LSkip
+      end
   | _ => LSkip
   end.
